@@ -56,6 +56,9 @@ class Exec:
             self.s.handoff = True
         elif policy == 'env_first':
             self.s.env_first = True
+        elif policy == 'others_first':
+            self.s.env_first = True
+            self.s.others_first = True
 
     def _choose(self, n, label=''):
         if self.frozen:
@@ -78,6 +81,11 @@ class Exec:
             r = self.s.run(main)
         finally:
             simcf.ENV = None
+        for name, rep, tb in self.s.died:
+            if rep.startswith(('HarnessError', 'Divergence')):
+                # the machinery failed inside a controlled thread: never a finding about the code under test
+                from vf.core import HarnessError
+                raise HarnessError('in thread %s: %s\n%s' % (name, rep, tb))
         self.ch.check_consumed()
         return r
 
